@@ -76,6 +76,8 @@ def exc_in_harness(exc):
     """True if the exception is a bug of the harness rather than behaviour of the system under test: walking from the
     innermost frame outwards (skipping third-party frames such as jax / numpy / pandas), the first frame that belongs to
     either side decides — jaxley: the library raised (or made JAX raise); /verif: the harness did."""
+    if getattr(exc, "sut_defect", False):
+        return False  # raised by a seam of the harness *about* the library (e.g. simrun.ArgsMutated)
     if type(exc).__name__ == "UnexpectedTracerError":
         # "a function transformed by JAX had a side effect": the only functions the harness transforms are thin
         # wrappers around jaxley.integrate, and the harness stores no traced values — a leaked tracer that resurfaces
